@@ -959,6 +959,77 @@ def run_dcclose_probe(variant):
         loop.close()
 
 
+def run_reneg_probe(kind):
+    """a second offer / answer round on a connected media connection, then close(): every track the answerer was
+    handed (by `track` events of either round) must have ended.  Returns their readyStates or an error string."""
+    import asyncio as aio
+    logging.disable(logging.CRITICAL)
+
+    async def go():
+        from aiortc import RTCPeerConnection
+        from aiortc.mediastreams import AudioStreamTrack, VideoStreamTrack
+        a, b = RTCPeerConnection(), RTCPeerConnection()
+        got = []
+        b.on("track", lambda t: got.append(t))
+        a.addTrack(AudioStreamTrack() if kind == 0 else VideoStreamTrack())
+
+        async def round_(x, y):
+            await x.setLocalDescription(await x.createOffer())
+            await y.setRemoteDescription(x.localDescription)
+            await y.setLocalDescription(await y.createAnswer())
+            await x.setRemoteDescription(y.localDescription)
+        try:
+            await round_(a, b)
+            for _ in range(600):
+                if a.connectionState == "connected" and b.connectionState == "connected":
+                    break
+                await aio.sleep(0.01)
+            await round_(a, b)
+            await aio.sleep(0.05)
+            await aio.wait_for(b.close(), CLOSE_TIMEOUT)
+            await aio.wait_for(a.close(), CLOSE_TIMEOUT)
+            from aiortc.mediastreams import MediaStreamError
+            states = []
+            for t in got:
+                # a track has ended when recv() raises MediaStreamError (after the frames that were still queued)
+                st = "blocked"
+                try:
+                    async def drain(t=t):
+                        while True:
+                            await t.recv()
+                    await aio.wait_for(drain(), 3)
+                except MediaStreamError:
+                    st = "ended"
+                except aio.TimeoutError:
+                    st = "blocked: recv() does not return"
+                states.append(st)
+            return states
+        finally:
+            for pc in (a, b):
+                try:
+                    await aio.wait_for(pc.close(), 5)
+                except BaseException:
+                    pass
+
+    loop = asyncio.new_event_loop()
+    loop.set_exception_handler(lambda l, ctx: None)
+    asyncio.set_event_loop(loop)
+    try:
+        return loop.run_until_complete(go())
+    except BaseException as exc:       # noqa
+        return "probe failed: " + repr(exc)[:120]
+    finally:
+        try:
+            pend = [t for t in asyncio.all_tasks(loop) if not t.done()]
+            for t in pend:
+                t.cancel()
+            if pend:
+                loop.run_until_complete(asyncio.wait(pend, timeout=1.0))
+        except BaseException:
+            pass
+        loop.close()
+
+
 def run_real(case):
     """One real run in a fresh event loop. Returns the observation dict."""
     global RUN
@@ -1080,7 +1151,7 @@ class C19(Check):
         return [self.gen_case(rng, 100000 + i) for i in range(min(n, 120))]
 
     def shrink_candidates(self, case):
-        if case and case[0] == "dcclose-probe":
+        if case and case[0] in ("dcclose-probe", "reneg-probe"):
             return
         # smaller configurations first, then simpler trigger
         for idx, lo in ((1, 0), (2, 0), (3, 0), (4, 0), (5, 0), (9, 0), (10, 0)):
@@ -1091,6 +1162,8 @@ class C19(Check):
                     yield c
 
     def describe_case(self, case):
+        if case and case[0] == "reneg-probe":
+            return {"case": case, "probe": "two offer/answer rounds on a connected " + ["audio", "video"][case[1]] + " connection, then close()"}
         if case and case[0] == "dcclose-probe":
             return {"case": case, "probe": "channel.close() then close() on the " + ["offerer", "answerer"][case[1]]}
         policy, na, nv, ba, bv, dc, point, k, who, twice, fault = case[:11]
@@ -1121,6 +1194,8 @@ class C19(Check):
     def impl_run(self, case):
         if case and case[0] == "dcclose-probe":
             return run_dcclose_probe(case[1])
+        if case and case[0] == "reneg-probe":
+            return run_reneg_probe(case[1])
         return self.safe_impl(case)
 
     def extra_checks(self, ctx):
@@ -1135,6 +1210,14 @@ class C19(Check):
                 out.append(("channel-not-closed", f"channel.close() then close() on the {['offerer', 'answerer'][variant]}: "
                                                   f"data channel states after both connections closed: {res}",
                             ["dcclose-probe", variant]))
+        # a second negotiation round before close(): all received tracks end
+        self.reneg_probe = []
+        for kind in (0, 1):
+            res = run_reneg_probe(kind)
+            self.reneg_probe.append(res)
+            if isinstance(res, list) and any(st != "ended" for st in res):
+                out.append(("track-not-ended", f"two offer/answer rounds on a connected {['audio', 'video'][kind]} connection, then "
+                                               f"close(): states of the tracks handed to the answerer: {res}", ["reneg-probe", kind]))
         return out
 
     @staticmethod
@@ -1177,6 +1260,10 @@ class C19(Check):
 
     # ------------------------------------------------------------ oracle: the property on the real objects
     def oracle(self, case, impl_out):
+        if case and case[0] == "reneg-probe":
+            if isinstance(impl_out, list) and any(st != "ended" for st in impl_out):
+                return ("track-not-ended", f"two offer/answer rounds, then close(): states of the received tracks: {impl_out}")
+            return None
         if case and case[0] == "dcclose-probe":
             if isinstance(impl_out, list) and any(st != "closed" for st in impl_out):
                 return ("channel-not-closed", f"channel.close() then close(): data channel states after both connections "
@@ -1229,7 +1316,8 @@ class C19(Check):
              "close_ms_max": 0, "by_point": {}, "by_side": {}, "by_policy": {}, "twice": 0, "fault": {},
              "exact_point": 0, "kth_callback": 0, "at_lifecycle_event": 0, "nego_call_overtaken": 0, "cancels": 0, "ice_shutdowns": 0,
              "tasks_begun": 0, "pumps_ended": 0, "closes_with_task_not_yet_started": 0, "event_kinds": {},
-             "channel_close_then_close_probe": getattr(self, "dcclose_probe", None)}
+             "channel_close_then_close_probe": getattr(self, "dcclose_probe", None),
+             "renegotiate_then_close_probe": getattr(self, "reneg_probe", None)}
         for c in cases:
             res = self.stash.get(json.dumps(c))
             if not res:
